@@ -25,6 +25,7 @@ from typing import Any
 
 import dns.enum
 import dns.exception
+import dns.immutable
 import dns.inet
 import dns.ipv4
 import dns.ipv6
@@ -175,6 +176,7 @@ class Option:
         return self.to_text()
 
 
+@dns.immutable.immutable
 class GenericOption(Option):  # lgtm[py/missing-equals]
     """Generic Option Class
 
@@ -206,6 +208,7 @@ class GenericOption(Option):  # lgtm[py/missing-equals]
         return cls(otype, parser.get_remaining())
 
 
+@dns.immutable.immutable
 class ECSOption(Option):  # lgtm[py/missing-equals]
     """EDNS Client Subnet (ECS, RFC7871)"""
 
@@ -388,6 +391,7 @@ class EDECode(dns.enum.IntEnum):
         return 65535
 
 
+@dns.immutable.immutable
 class EDEOption(Option):  # lgtm[py/missing-equals]
     """Extended DNS Error (EDE, RFC8914)"""
 
@@ -451,6 +455,7 @@ class EDEOption(Option):  # lgtm[py/missing-equals]
         return cls(code, btext)
 
 
+@dns.immutable.immutable
 class NSIDOption(Option):
     def __init__(self, nsid: bytes):
         super().__init__(OptionType.NSID)
@@ -478,6 +483,7 @@ class NSIDOption(Option):
         return cls(parser.get_remaining())
 
 
+@dns.immutable.immutable
 class CookieOption(Option):
     def __init__(self, client: bytes, server: bytes):
         super().__init__(OptionType.COOKIE)
@@ -512,6 +518,7 @@ class CookieOption(Option):
         return cls(parser.get_bytes(8), parser.get_remaining())
 
 
+@dns.immutable.immutable
 class ReportChannelOption(Option):
     # RFC 9567
     def __init__(self, agent_domain: dns.name.Name):
@@ -531,6 +538,7 @@ class ReportChannelOption(Option):
         return cls(parser.get_name())
 
 
+@dns.immutable.immutable
 class EDEExtraTextLanguageOption(Option):
     """Extended DNS Error EXTRA-TEXT language (EDE-EXTRA-TEXT-LANGUAGE)"""
 
@@ -561,6 +569,7 @@ class EDEExtraTextLanguageOption(Option):
         return cls(_decode_utf8(parser.get_remaining()))
 
 
+@dns.immutable.immutable
 class FilteringContactOption(Option):
     """Filtering contact (FILTERING-CONTACT)"""
 
@@ -591,6 +600,7 @@ class FilteringContactOption(Option):
         return cls(_decode_utf8(parser.get_remaining()))
 
 
+@dns.immutable.immutable
 class FilteringOrganizationOption(Option):
     """Filtering organization (FILTERING-ORGANIZATION)"""
 
@@ -621,6 +631,7 @@ class FilteringOrganizationOption(Option):
         return cls(_decode_utf8(parser.get_remaining()))
 
 
+@dns.immutable.immutable
 class FilteringDBOption(Option):
     """Filtering DB (FILTERING-DB)"""
 
